@@ -747,6 +747,10 @@ func c19OtherNames() []string {
 		add(strings.SplitN(real, "@", 2)[0] + "@openssh.org")
 		add(strings.SplitN(real, "@", 2)[0] + "@")
 	}
+	// very long names (the request still fits a frame): whatever the server says about them has to fit one too
+	add(strings.Repeat("\x00", 70000))
+	add(strings.Repeat("n", 200000))
+	add(strings.Repeat("z", 262100))
 	return out
 }
 
@@ -786,6 +790,15 @@ func c19UnknownPart(c *reg.Ctx) *reg.Result {
 					class = "near-miss"
 				}
 				replay := map[string]string{"server": sv, "name": n, "packet_hex": hex.EncodeToString(req)}
+				if len(n) > 1000 {
+					class = "long"
+					desc = fmt.Sprintf("%s server: EXTENDED with a name of %d bytes (%q...) and %d string argument(s), then STAT", sv, len(n), n[:4], pi)
+					replay["name"] = fmt.Sprintf("%d x %q", len(n), n[:1])
+					delete(replay, "packet_hex")
+				}
+				if err == nil && len(f.body)+1 > maxMsgLength {
+					res.Violate("C19", "c19-unknown-reply-too-long:"+sv, fmt.Sprintf("%s: the reply is a frame of %d bytes, more than the %d a client of this package accepts (the session ends there)", desc, len(f.body)+1, maxMsgLength), replay, nil)
+				}
 				if err != nil || !isStatus || code != sshFxOPUnsupported || f.id != 5 {
 					res.Violate("C19", "c19-unknown-not-unsupported:"+sv+":"+class, fmt.Sprintf("%s: answered %v (err %v), want STATUS#5(SSH_FX_OP_UNSUPPORTED)", desc, f, err), replay, nil)
 				}
